@@ -244,7 +244,7 @@ struct OwnEngine : Engine {
                 else if (op == "mutate") { touched_r.insert(a); if (roots[a].moved_from) skipped = true; else { bool did = false; SUT(did = mutate(roots[a].p, x)); ledger::fail_countdown = 0; record(roots[a]); if (!did) skipped = true; else st.inc("probe.mutation"); } }
                 else if (op == "pk_wrap") { if (!nr) skipped = true; else { Packet* pk = 0; SUT(pk = new Packet(roots[a].p, Timestamp(std::chrono::microseconds(x)), Packet::own_pdu())); ledger::fail_countdown = 0; PkSlot s; s.pk = pk; roots.erase(roots.begin() + a); pks.push_back(s); record_pk(pks.back()); } }
                 else if (op == "pk_clonewrap") { if (!nr) skipped = true; else { Packet* pk = 0; SUT(pk = x % 2 ? new Packet(*roots[a].p, Timestamp(std::chrono::microseconds(x))) : new Packet((const PDU*)roots[a].p, Timestamp(std::chrono::microseconds(x)))); ledger::fail_countdown = 0; PkSlot s; s.pk = pk; pks.push_back(s); record_pk(pks.back()); if (roots[a].known && pks.back().types != roots[a].types) result = Verdict::bad("own:copy-not-equal", "Packet(pdu) does not hold a copy of the pdu", idx); } }
-                else if (!np) skipped = true;
+                else if (!np && op.compare(0, 3, "pk_") == 0) skipped = true;
                 else if (op == "pk_copy") { Packet* pk = 0; SUT(pk = new Packet(*pks[pa].pk)); ledger::fail_countdown = 0; PkSlot s; s.pk = pk; pks.push_back(s); record_pk(pks.back()); if (pks[pa].known && (pks.back().types != pks[pa].types || (pks[pa].bytes_known && pks.back().bytes_known && pks.back().bytes != pks[pa].bytes))) result = Verdict::bad("own:copy-not-equal", "Packet copy differs from its source", idx); nontrivial = true; }
                 else if (op == "pk_assign") { touched_p.insert(pa); if (x % 7 == 0) pb = pa; SUT(*pks[pa].pk = *pks[pb].pk); ledger::fail_countdown = 0; PkSlot src = pks[pb]; record_pk(pks[pa]); if (pa == pb) st.inc("probe.packet_self_assignment"); if (!src.pk->pdu()) st.inc("probe.assign_from_empty_packet");
                         if (src.known && (pks[pa].types != src.types || (src.bytes_known && pks[pa].bytes_known && pks[pa].bytes != src.bytes))) result = Verdict::bad("own:copy-not-equal", "Packet copy-assignment result differs from its source", idx); nontrivial = true; }
@@ -288,7 +288,7 @@ struct OwnEngine : Engine {
             tr.add(fmt("op %d %s a=%zu b=%zu fail=%d -> %s roots=%zu pks=%zu live=%lld allocs=%llu", idx, op.c_str(), a, b, fail, outcome.c_str(), roots.size(), pks.size(), (long long)ledger::live, (unsigned long long)ledger::allocs_in_op));
             sig = mix64(sig, fnv1a(op) ^ fnv1a(outcome));
             if (result.viol) break;
-            if (!skipped) st.inc("chk.op");
+            if (!skipped) { st.inc("chk.op"); st.inc("probe.op." + op); } else st.inc("probe.op_skipped." + op);
             // ---- invariants after every op
             std::string why; if (!forest_ok(roots, pks, why)) { result = Verdict::bad(threw ? "own:forest-broken-after-bad_alloc" : "own:forest-broken", op + ": " + why, idx); break; }
             for (size_t i = 0; i < roots.size() && !result.viol; ++i) {
